@@ -1106,7 +1106,10 @@ func (eval Evaluator) mulRelinThenAdd(op0 *rlwe.Ciphertext, op1 *rlwe.Element[ri
 		ratio := resScale.Div(opOut.Scale)
 		// Only scales up if int(ratio) >= 2
 		if ratio.Float64() >= 2.0 {
-			if err = eval.Mul(opOut, &ratio.Value, opOut); err != nil {
+			// The ratio is rounded to an integer: a non-integer scalar would be encoded at the scale of the
+			// current prime by Mul, i.e. multiply opOut by an additional factor that resScale does not account for.
+			ratioInt, _ := new(big.Float).Add(&ratio.Value, new(big.Float).SetFloat64(0.5)).Int(nil)
+			if err = eval.Mul(opOut, ratioInt, opOut); err != nil {
 				return fmt.Errorf("cannot MulRelinThenAdd: %w", err)
 			}
 			opOut.Scale = resScale
